@@ -2402,7 +2402,8 @@ int _vnaproperty_yaml_export(vnaproperty_yaml_t *vymlp,
 	    yaml_scalar_style_t style = YAML_ANY_SCALAR_STYLE;
 
 	    if ((value = vnaproperty_get(root, ".")) == NULL) {
-		_vnaproperty_yaml_error(vymlp, VNAERR_INTERNAL,
+		_vnaproperty_yaml_error(vymlp,
+			errno == ENOMEM ? VNAERR_SYSTEM : VNAERR_INTERNAL,
 			"%s: _vnaproperty_get: %s: %s",
 			__func__, vymlp->vyml_filename, strerror(errno));
 		return -1;
@@ -2458,7 +2459,15 @@ int _vnaproperty_yaml_export(vnaproperty_yaml_t *vymlp,
 		    free((void *)keys);
 		    return -1;
 		}
+		errno = 0;
 		subtree = vnaproperty_get_subtree(root, "%s", key);
+		if (subtree == NULL && errno != 0) {
+		    _vnaproperty_yaml_error(vymlp, VNAERR_SYSTEM,
+			    "vnaproperty_get_subtree: %s", strerror(errno));
+		    free((void *)keys);
+		    free((void *)key);
+		    return -1;
+		}
 		if ((value = _vnaproperty_yaml_export(vymlp, subtree)) == -1) {
 		    free((void *)keys);
 		    free((void *)key);
@@ -2480,6 +2489,11 @@ int _vnaproperty_yaml_export(vnaproperty_yaml_t *vymlp,
 	    int sequence;
 	    int count = vnaproperty_count(root, "[]");
 
+	    if (count == -1) {
+		_vnaproperty_yaml_error(vymlp, VNAERR_SYSTEM,
+			"vnaproperty_count: %s", strerror(errno));
+		return -1;
+	    }
 	    errno = 0;
 	    if ((sequence = yaml_document_add_sequence(document, NULL,
 			    YAML_BLOCK_SEQUENCE_STYLE)) == 0) {
@@ -2495,7 +2509,13 @@ int _vnaproperty_yaml_export(vnaproperty_yaml_t *vymlp,
 		vnaproperty_t *subtree;
 		int value;
 
+		errno = 0;
 		subtree = vnaproperty_get_subtree(root, "[%d]", i);
+		if (subtree == NULL && errno != 0) {
+		    _vnaproperty_yaml_error(vymlp, VNAERR_SYSTEM,
+			    "vnaproperty_get_subtree: %s", strerror(errno));
+		    return -1;
+		}
 		if ((value = _vnaproperty_yaml_export(vymlp, subtree)) == -1) {
 		    return -1;
 		}
